@@ -441,6 +441,14 @@ def run(scenario, world):
                     ind = args.get('individual') or 'a'
                     names = main.pred.get_parameter_names()
                     w = scenario['recipes'].get('weights', [0.5, 0.5])
+                    gw = call(lambda: np.asarray(target.get_weights()))
+                    want_w = np.asarray(w, dtype=float) / np.sum(w)
+                    if is_exc(gw) or gw.shape != want_w.shape or not \
+                            np.allclose(gw, want_w, rtol=1e-12, atol=0):
+                        raise Violation(
+                            'joint_draw.averaged', 'weights',
+                            'stated weights %s, model uses %s' % (
+                                want_w.tolist(), short(gw)), step)
                     dss = [main.ds1, main.ds2, main.ds3][:len(w)]
                     for idx, vec in ic.calls:
                         hit = [joint_row(d_, names, ind, vec) for d_ in dss]
